@@ -88,6 +88,8 @@ func init() {
 					R.seen(f)
 				}
 			}},
+		Rule{ID: "C06.m", Explain: "no failure is dropped during issuance (builder.go, issuer.go): a failed generator, commitment, signature or proof step ends the call instead of leaving a nil value in the builder or the message (same rule as C08.g: the error a call returns has a use - a nil test or a return - before it is overwritten, shadowed or left behind).",
+			Run: func(P *Program, R *Report) { errorResultsUsedRule(P, R, "C06.m", inFiles(P, "builder.go", "issuer.go"), nil, 10) }},
 	)
 }
 
